@@ -224,7 +224,7 @@ def do_action(case, ctx, site, action):
         cid = action[1]
         ctx.xlog.append(("register", "c:" + cid, site))
         # keyword arguments are passed through to the cleanup, whatever they are called
-        case.addCleanup(_cleanup_kw, case, ctx, cid, fn=1, result=3, function=2)
+        case.addCleanup(_cleanup_kw, case, ctx, cid, fn=1, result=3, function=2, f=4)
     elif op == "patch":
         # ("patch", attr, value): attr "existing" exists, anything else is missing
         ctx.xlog.append(("patch", action[1], action[2], site))
@@ -250,9 +250,9 @@ def _cleanup(case, ctx, cid):
     return perform(case, ctx, stage, ctx.decide(stage))
 
 
-def _cleanup_kw(case, ctx, cid, fn=None, result=None, function=None):
-    if (fn, result, function) != (1, 3, 2):
-        ctx.xlog.append(("bad-kwargs", cid, (fn, result, function)))
+def _cleanup_kw(case, ctx, cid, fn=None, result=None, function=None, f=None):
+    if (fn, result, function, f) != (1, 3, 2, 4):
+        ctx.xlog.append(("bad-kwargs", cid, (fn, result, function, f)))
     return _cleanup(case, ctx, cid)
 
 
